@@ -20,7 +20,7 @@ go test -vet=off -count=1 -run 'Demo|C[0-9][0-9]' ./$pkgdir/ 2>&1 | tail -3
 base=$?
 base_ok=$(go test -vet=off -count=1 -run 'Demo|C[0-9][0-9]' ./$pkgdir/ >/dev/null 2>&1 && echo pass || echo fail)
 echo "== apply patch"
-git apply $SRC/patch.diff || { echo "PATCH DOES NOT APPLY"; cd /; git -C /repo worktree remove --force $WT; exit 3; }
+git apply $SRC/patch.diff 2>/dev/null || git apply --3way $SRC/patch.diff || { echo "PATCH DOES NOT APPLY"; cd /; git -C /repo worktree remove --force $WT; exit 3; }
 go build ./... || { echo "BUILD FAILS"; }
 echo "== demo with patch (want FAIL)"
 mut_ok=$(go test -vet=off -count=1 -run 'Demo|C[0-9][0-9]' ./$pkgdir/ >/dev/null 2>&1 && echo pass || echo fail)
